@@ -29,6 +29,10 @@ class TableSuite(S.Suite):
         return ["pure"]      # table.py does not touch the compiled module
 
     def compare_line(self, line, model):
+        if line["op"] == "exprcol":
+            return []          # numpy's elementwise arithmetic is a parameter of the model: oracle only
+        if line["op"] == "derive" and any(st[0] in ("transpose", "concatenate") for st in line["steps"]):
+            return []          # _t and concatenate are outside the model (oracle only)
         if "bad-op" in model:
             return [("bad-op", None, model["bad-op"])]
         impl = line["impl"]
@@ -41,6 +45,8 @@ class TableSuite(S.Suite):
     def nontrivial(self, stats, prop):
         if prop == "C07":
             return int(stats.get("c07_hits", 0) + stats.get("c07_keyerror_cases", 0))
+        if prop == "C14":
+            return int(stats.get("c14_derivations", 0) + stats.get("c14_exprcols", 0))
         return int(stats.get("c08_nonempty", 0))
 
     def rule(self, prop):
@@ -49,6 +55,10 @@ class TableSuite(S.Suite):
                     "whole-column and attribute-style assignment, new / deleted columns) and look-ups in string and tuple "
                     "form through t[col,row], rows.get_index, t // row; index columns of 0..8 rows over a small alphabet so "
                     "repetition is common; non-trivial = a look-up whose scan reference is a position inside the table or KeyError")
+        if prop == "C14":
+            return ("chains of 1..4 derivations (row selection, column selection, +, *, _copy, _t, concatenate) on random tables with "
+                    "int / float / string columns and scalar entries, arithmetic column expressions, column assignments in between; "
+                    "non-trivial = one derivation step whose result was checked for rectangularity and whose source was snapshotted")
         return ("random tables (0..7 rows) x selectors of every documented form x indices/mask/rows, plus (job 0) every index "
                 "column over a 3-name alphabet up to length 4 (quick) / 5 (thorough) against a fixed battery of selectors; "
                 "non-trivial = the reference selection is non-empty")
